@@ -50,6 +50,8 @@ impl<'a> Read for ZipFile<'a> {
 impl<'a> ZipFile<'a> {
 //@use zipfile_enclosed_name
 //@use zipfile_name nobody
+//@use zipfile_is_dir nobody
+//@use zipfile_is_file nobody
 //@use zipfile_unix_mode nobody
 }
 //@use read_zipfile_from_stream nobody
